@@ -5,6 +5,7 @@ const struct flavor_ops *const flavors[FLV_N] = { &flavor_memb, &flavor_mb, &fla
 
 void scen_gp(void);
 void scen_gp_live(void);
+void scen_registry(void);
 void scen_callrcu(void);
 void scen_barrier(void);
 void scen_poll(void);
@@ -21,6 +22,7 @@ void scen_lfht_seq(void);
 const struct usim_scenario usim_scenarios[] = {
 	{ "gp", "C01", scen_gp },
 	{ "gp_live", "C02", scen_gp_live },
+	{ "registry", "C15", scen_registry },
 	{ "callrcu", "C03", scen_callrcu },
 	{ "barrier", "C04", scen_barrier },
 	{ "poll", "C14", scen_poll },
